@@ -961,7 +961,8 @@ def op_add_near(ctx, rng, A0, B0, how, bits=8):
 
 
 def op_matmul(ctx, rng, parts, form="list"):
-    """parts[0] @ parts[1:] (form 'list'), parts[0] @ parts[1] (form 'mesh'), parts[1:] @ parts[0] (form 'rlist')."""
+    """parts[0] @ parts[1:] (form 'list'), parts[0] @ parts[1] (form 'mesh'), parts[1:] @ parts[0] (form 'rlist'),
+    parts[0] @ parts[1] @ parts[2] ... (form 'chain')."""
     op = "matmul"
     first, rest = parts[0], parts[1:]
     if form == "mesh":
@@ -971,6 +972,15 @@ def op_matmul(ctx, rng, parts, form="list"):
     elif form == "rlist":
         out = [s.mesh for s in rest] @ first.mesh
         order = rest + [first]
+    elif form == "chain":
+        # m1 @ m2 @ m3 ...: every step joins the meshes returned by the step before (which share one node array and
+        # reference only part of it) with the next mesh
+        out = first.mesh
+        for s in rest:
+            out = out @ s.mesh
+        order = [first] + rest
+        if len(order) > 2:
+            ctx.reached("matmul-chained")
     else:
         out = first.mesh @ [s.mesh for s in rest]
         order = [first] + rest
